@@ -26,6 +26,7 @@ import (
 type Case struct {
 	Rules     []*gast.Rule
 	Text      string            // the text handed to the builder (all rules)
+	Texts     []string          // when non-empty: the rule set is built from these resources, one after the other
 	SoloTexts map[string]string // rule name -> text of that rule alone (canonical)
 	Init      *facts.State
 	MaxCycle  uint64
@@ -111,9 +112,20 @@ type Prepared struct {
 
 // Prepare builds the rule set (together and every rule alone).
 func Prepare(c *Case) (*Prepared, error) {
-	lib, err := obs.Build(c.Text)
-	if err != nil {
-		return nil, fmt.Errorf("building the rule set: %v", err)
+	var lib *ast.KnowledgeLibrary
+	var err error
+	if len(c.Texts) > 0 {
+		lib = ast.NewKnowledgeLibrary()
+		for i, t := range c.Texts {
+			if berr, _ := obs.BuildInto(lib, obs.KBName, obs.KBVersion, t); berr != nil {
+				return nil, fmt.Errorf("building resource %d of the rule set: %v", i, berr)
+			}
+		}
+	} else {
+		lib, err = obs.Build(c.Text)
+		if err != nil {
+			return nil, fmt.Errorf("building the rule set: %v", err)
+		}
 	}
 	p := &Prepared{Lib: lib, ByName: map[string]*gast.Rule{}}
 	for _, r := range c.Rules {
